@@ -102,3 +102,82 @@ def _enclosing(node):
         if hasattr(cur, "name") and hasattr(cur, "body"):
             return cur.name
     return "<module>"
+
+
+NAME_WITNESS_TARGETS = ["Align", "Align1", "Align2", "Align10", "Chunk1", "Chunk2", "other", "a.b"]
+NAME_WITNESS_PATTERNS = [
+    ["Align"], ["Align*"], ["Align?"], ["Align??"], ["Chunk[12]"], ["Chunk[!1]"], ["*1"], ["nomatch"], ["Align1", "Chunk2"],
+    ["A*", "C*"], ["Align*", "Align1"], ["a.b"], ["a?b"], ["*"], [],
+]
+
+
+def eval_name_selection(ctx, patterns, one_shot=False):
+    """filter_names(targets, patterns) evaluated on named symbolic targets; returns (sorted names, duplicates?) or an error string."""
+    from ..symeval import Obj, PureInterp, Raised, Unsupported
+    fn = ctx.index.func("gwf.filtering:filter_names")
+    targets = [Obj("target", name=n) for n in NAME_WITNESS_TARGETS]
+    arg = iter(targets) if one_shot else targets
+    try:
+        got = PureInterp(ctx).call(fn, (arg, list(patterns)))
+        got = list(got)
+    except (Raised, Unsupported) as exc:
+        return f"<{type(exc).__name__}: {exc}>"
+    names = [getattr(t, "name", repr(t)) for t in got]
+    return sorted(names)
+
+
+def rule_name_selection(ctx, r, what):
+    """Name patterns select exactly the targets whose name matches one of the shell-style patterns (fnmatch: * ? [seq] [!seq]), each once,
+    whatever kind of iterable the targets come in.  Decided by evaluating filter_names over a pattern table covering every wildcard kind."""
+    import fnmatch
+    fn = ctx.index.func("gwf.filtering:filter_names")
+    nf = ctx.index.func("gwf.filtering:NameFilter.apply")
+    bad = []
+    n = 0
+    for pats in NAME_WITNESS_PATTERNS:
+        want = sorted({t for t in NAME_WITNESS_TARGETS for p in pats if fnmatch.fnmatchcase(t, p)})
+        for one_shot in (False, True):
+            n += 1
+            got = eval_name_selection(ctx, pats, one_shot)
+            if got != want:
+                bad.append((pats, "one-shot iterable of targets" if one_shot else "list of targets", got, want))
+    con = f"{nf.module.relpath}::{nf.qual}"
+    if bad:
+        pats, kind, got, want = bad[0]
+        r.violation(con + "::selection", f"{what}: patterns {pats} over a {kind} select {got}, expected {want} ({len(bad)} of {n} pattern/iterable witnesses differ): "
+                    "a shell-style pattern (* ? [seq] [!seq]) must select exactly the targets whose names match, each once", nf.where)
+    else:
+        r.ok(con + "::selection", f"{n} witnesses (literal, *, ?, [seq], [!seq], several patterns, overlapping, none; list and one-shot iterables) select exactly the matching names",
+             nf.where)
+    return fn
+
+
+def rule_config_switch(ctx, r, key, consumer, via_namespace=None):
+    """A yes/no setting stored with `gwf config set KEY <word>` reads back with the truth value of the word at the site that consumes it.
+
+    Evaluates FileConfig.__setitem__ followed by the consumer's read (config.get(KEY) or get_namespace(NS)[name]) for every switch word."""
+    from collections import ChainMap
+    from ..symeval import Obj, PureInterp, Raised, Unsupported, tok
+    idx = ctx.index
+    ci = idx.cls("gwf.conf:FileConfig")
+    seti, get, gn = idx.method(ci, "__setitem__"), idx.method(ci, "get"), idx.method(ci, "get_namespace")
+    defaults = ctx.ev.eval_global("gwf.conf", "CONFIG_DEFAULTS")
+    words = {"no": False, "false": False, "0": False, "yes": True, "true": True, "1": True}
+    bad = {}
+    interp = PureInterp(ctx)
+    for w, want in words.items():
+        cfg = Obj("config", path=tok("CFG"), data=ChainMap({}, dict(defaults)), **{"__class__": ci})
+        try:
+            interp.call(seti, (key, w), {}, self_obj=cfg)
+            if via_namespace:
+                ns = interp.call(gn, (via_namespace,), {}, self_obj=cfg)
+                val = ns.get(key[len(via_namespace) + 1:], "<absent>")
+            else:
+                val = interp.call(get, (key,), {}, self_obj=cfg)
+            if bool(val) is not want or val == "<absent>":
+                bad[w] = val
+        except (Raised, Unsupported) as exc:
+            bad[w] = f"<{exc}>"
+    r.check(not bad, f"{seti.module.relpath}::{seti.qual}::{key}", f"`gwf config set {key} <yes|no|true|false|1|0>` reads back with that truth value where {consumer}",
+            f"after `gwf config set {key} WORD` the value read where {consumer} is {bad} (word -> value): the switch cannot be turned "
+            f"{'off' if any(not words[w] for w in bad) else 'on'} from the command line", seti.where)
